@@ -61,7 +61,7 @@ func extract(a hx.ExtractArgs) error {
 	if err != nil {
 		return err
 	}
-	lf := hx.NewLeanFile("Gms.Generated.C43", ct.Path, "sql/information_schema/information_schema.go", "sql/information_schema/views_table.go", "memory/table.go")
+	lf := hx.NewLeanFile("Gms.Generated.C43", ct.Path, "sql/information_schema/information_schema.go", "sql/information_schema/views_table.go", "memory/table.go", "sql/rowexec/show_iters.go", "sql/information_schema/routines_table.go")
 	fn, err := ct.Func("", "getIndexKeyInfo")
 	if err != nil {
 		return err
@@ -299,7 +299,12 @@ type ddl struct {
 	pos          string // last | first | after:<c>
 	i            idx
 	text, tm, ev string
+	chars        []string // cp: det | notdet | contains | nosql | reads | modifies, in the order written
+	invoker      bool     // cp: SQL SECURITY INVOKER stated
 }
+
+var chrSQL = map[string]string{"det": "DETERMINISTIC", "notdet": "NOT DETERMINISTIC", "contains": "CONTAINS SQL", "nosql": "NO SQL",
+	"reads": "READS SQL DATA", "modifies": "MODIFIES SQL DATA"}
 
 func hexs(xs []string) string { return strings.Join(mapS(xs, hx.HexS), " ") }
 func mapS(xs []string, f func(string) string) []string {
@@ -388,6 +393,14 @@ func (d ddl) sexp() string {
 		return hx.List("dv", hx.HexS(d.n))
 	case "ctr":
 		return hx.List("ctr", hx.HexS(d.n), hx.HexS(d.t), hx.HexS(d.tm), hx.HexS(d.ev))
+	case "cp":
+		inv := "0"
+		if d.invoker {
+			inv = "1"
+		}
+		return hx.List("cp", hx.HexS(d.n), hx.List(append([]string{"chr"}, d.chars...)...), inv)
+	case "dp":
+		return hx.List("dp", hx.HexS(d.n))
 	}
 	return hx.List("dtr", hx.HexS(d.n))
 }
@@ -450,6 +463,25 @@ func (d ddl) sql(r *hx.Rand) string {
 	case "ctr":
 		body := "SET @c43 = 1"
 		return "CREATE TRIGGER " + d.n + " " + d.tm + " " + d.ev + " ON " + d.t + " FOR EACH ROW " + body
+	case "cp":
+		// the characteristics in the order written; SQL SECURITY INVOKER at a random place among them;
+		// SQL SECURITY DEFINER / LANGUAGE SQL (no effect on the row) now and then
+		parts := mapS(d.chars, func(c string) string { return chrSQL[c] })
+		ins := func(x string) {
+			k := r.Intn(len(parts) + 1)
+			parts = append(parts[:k], append([]string{x}, parts[k:]...)...)
+		}
+		if d.invoker {
+			ins("SQL SECURITY INVOKER")
+		} else if r.Chance(1, 4) {
+			ins("SQL SECURITY DEFINER")
+		}
+		if r.Chance(1, 5) {
+			ins("LANGUAGE SQL")
+		}
+		return "CREATE PROCEDURE " + d.n + "() " + strings.Join(parts, " ") + " SELECT 1"
+	case "dp":
+		return "DROP PROCEDURE " + d.n
 	}
 	return "DROP TRIGGER " + d.n
 }
@@ -468,6 +500,7 @@ type shadow struct {
 	tables map[string]*shadowTbl
 	views  map[string]bool
 	trigs  map[string]string
+	procs  map[string]bool
 }
 
 func (s *shadow) tableNames() []string {
@@ -514,8 +547,48 @@ func pickSome(r *hx.Rand, xs []string, max int) []string {
 	return perm[:n]
 }
 
-func genHistory(r *hx.Rand, steps int) []ddl {
-	s := &shadow{tables: map[string]*shadowTbl{}, views: map[string]bool{}, trigs: map[string]string{}}
+// randProc: 0-3 characteristics (repetitions and contradicting pairs allowed: the last one decides).
+func randProc(r *hx.Rand, name string) ddl {
+	d := ddl{kind: "cp", n: name, invoker: r.Chance(1, 3)}
+	for n := r.Intn(4); n > 0; n-- {
+		d.chars = append(d.chars, hx.Pick(r, []string{"det", "notdet", "contains", "nosql", "reads", "modifies", "det", "reads"}))
+	}
+	return d
+}
+
+// statement kinds by weight, per stream: mixed (everything), keys (tables, columns, keys: composite
+// keys declared out of column order, dropped and re-added), procs (routines with a table or two)
+var kindWeights = map[string][]struct {
+	k string
+	w int
+}{
+	"mixed": {{"ct", 18}, {"dt", 8}, {"ac", 14}, {"dc", 8}, {"rc", 7}, {"ci", 13}, {"di", 6}, {"pk", 5}, {"view", 7}, {"trig", 14}, {"proc", 10}},
+	"keys":  {{"ct", 14}, {"dt", 3}, {"ac", 16}, {"dc", 6}, {"rc", 5}, {"ci", 16}, {"di", 8}, {"pk", 32}},
+	"procs": {{"ct", 6}, {"dt", 2}, {"ac", 4}, {"view", 3}, {"trig", 5}, {"proc", 80}},
+}
+
+func pickKind(r *hx.Rand, mode string) string {
+	ws := kindWeights[mode]
+	tot := 0
+	for _, x := range ws {
+		tot += x.w
+	}
+	k := r.Intn(tot)
+	for _, x := range ws {
+		if k < x.w {
+			return x.k
+		}
+		k -= x.w
+	}
+	return "ct"
+}
+
+func genHistory(r *hx.Rand, steps int, mode string) []ddl {
+	s := &shadow{tables: map[string]*shadowTbl{}, views: map[string]bool{}, trigs: map[string]string{}, procs: map[string]bool{}}
+	maxKey := 2
+	if mode == "keys" {
+		maxKey = 3
+	}
 	tnames := []string{"t1", "t2", "t3", "acct", "zz"}
 	cnames := []string{"a", "b", "c", "d", "e", "f", "id", "k1"}
 	inames := []string{"i1", "i2", "ab", "zk", "u1", "m_x"}
@@ -523,16 +596,18 @@ func genHistory(r *hx.Rand, steps int) []ddl {
 	// engine (both then exist); that is a DDL defect, not one of the views over the catalog
 	vnames := []string{"v1", "v2", "v3"}
 	trnames := []string{"tr1", "tr2", "tr3"}
+	// a procedure may carry the name of a table (separate name spaces)
+	pnames := []string{"p1", "p2", "p_a", "audit", "zz", "m1"}
 	var h []ddl
 	add := func(d ddl) { h = append(h, d) }
-	for len(h) < steps {
+	for tries := 0; len(h) < steps && tries < 40*steps; tries++ {
 		names := s.tableNames()
-		k := r.Intn(100)
-		if len(names) == 0 {
-			k = 0
+		k := pickKind(r, mode)
+		if len(names) == 0 && k != "proc" {
+			k = "ct"
 		}
-		switch {
-		case k < 18: // CREATE TABLE
+		switch k {
+		case "ct": // CREATE TABLE
 			t := hx.Pick(r, tnames)
 			nc := 1 + r.Intn(5)
 			var cols []col
@@ -547,8 +622,8 @@ func genHistory(r *hx.Rand, steps int) []ddl {
 				cn = append(cn, c.name)
 			}
 			d := ddl{kind: "ct", t: t, cols: cols}
-			if r.Chance(1, 2) {
-				d.pk = pickSome(r, cn, 2)
+			if r.Chance(1, 2) || (mode == "keys" && r.Chance(2, 3)) {
+				d.pk = pickSome(r, cn, maxKey)
 			}
 			ni := r.Intn(3)
 			used := map[string]bool{}
@@ -579,7 +654,7 @@ func genHistory(r *hx.Rand, steps int) []ddl {
 					s.tables[t] = st
 				}
 			}
-		case k < 26: // DROP TABLE
+		case "dt": // DROP TABLE
 			t := hx.Pick(r, names)
 			if r.Chance(1, 10) {
 				t = hx.Pick(r, tnames)
@@ -593,7 +668,7 @@ func genHistory(r *hx.Rand, steps int) []ddl {
 					}
 				}
 			}
-		case k < 40: // ADD COLUMN
+		case "ac": // ADD COLUMN
 			t := hx.Pick(r, names)
 			st := s.tables[t]
 			c := randCol(r, hx.Pick(r, cnames))
@@ -608,7 +683,7 @@ func genHistory(r *hx.Rand, steps int) []ddl {
 			if !contains(st.cols, c.name) {
 				st.cols = append(st.cols, c.name) // order is irrelevant for the shadow
 			}
-		case k < 48: // DROP COLUMN (never a column some key mentions, never the last one)
+		case "dc": // DROP COLUMN (never a column some key mentions, never the last one)
 			t := hx.Pick(r, names)
 			st := s.tables[t]
 			var free []string
@@ -623,7 +698,7 @@ func genHistory(r *hx.Rand, steps int) []ddl {
 			c := hx.Pick(r, free)
 			add(ddl{kind: "dc", t: t, n: c})
 			st.cols = remove(st.cols, c)
-		case k < 55: // RENAME COLUMN
+		case "rc": // RENAME COLUMN
 			t := hx.Pick(r, names)
 			st := s.tables[t]
 			o, n := hx.Pick(r, st.cols), hx.Pick(r, cnames)
@@ -648,7 +723,7 @@ func genHistory(r *hx.Rand, steps int) []ddl {
 					st.idxs[in] = ren(ic)
 				}
 			}
-		case k < 68: // CREATE INDEX
+		case "ci": // CREATE INDEX
 			t := hx.Pick(r, names)
 			st := s.tables[t]
 			i := idx{name: hx.Pick(r, inames), unique: r.Chance(1, 2), cols: pickSome(r, st.cols, 3)}
@@ -657,7 +732,7 @@ func genHistory(r *hx.Rand, steps int) []ddl {
 				st.idxs[i.name] = i.cols
 				st.uniq[i.name] = i.unique
 			}
-		case k < 74: // DROP INDEX
+		case "di": // DROP INDEX
 			t := hx.Pick(r, names)
 			st := s.tables[t]
 			n := hx.Pick(r, inames)
@@ -669,11 +744,11 @@ func genHistory(r *hx.Rand, steps int) []ddl {
 			add(ddl{kind: "di", t: t, n: n})
 			delete(st.idxs, n)
 			delete(st.uniq, n)
-		case k < 79: // ADD / DROP PRIMARY KEY
+		case "pk": // ADD / DROP PRIMARY KEY
 			t := hx.Pick(r, names)
 			st := s.tables[t]
 			if len(st.pk) == 0 || r.Chance(1, 5) {
-				pk := pickSome(r, st.cols, 2)
+				pk := pickSome(r, st.cols, maxKey)
 				add(ddl{kind: "apk", t: t, pk: pk})
 				if len(st.pk) == 0 {
 					st.pk = pk
@@ -682,7 +757,7 @@ func genHistory(r *hx.Rand, steps int) []ddl {
 				add(ddl{kind: "dpk", t: t})
 				st.pk = nil
 			}
-		case k < 86: // CREATE / DROP VIEW (views only select constants: their columns are outside the envelope)
+		case "view": // CREATE / DROP VIEW (views only select constants: their columns are outside the envelope)
 			v := hx.Pick(r, vnames)
 			if s.views[v] && r.Chance(2, 3) {
 				add(ddl{kind: "dv", n: v})
@@ -692,6 +767,15 @@ func genHistory(r *hx.Rand, steps int) []ddl {
 				if _, isT := s.tables[v]; !isT {
 					s.views[v] = true
 				}
+			}
+		case "proc": // CREATE / DROP PROCEDURE (now and then of a name that exists / does not exist: rejected)
+			p := hx.Pick(r, pnames)
+			if (s.procs[p] && r.Chance(2, 3)) || r.Chance(1, 15) {
+				add(ddl{kind: "dp", n: p})
+				delete(s.procs, p)
+			} else {
+				add(randProc(r, p))
+				s.procs[p] = true
 			}
 		default: // CREATE / DROP TRIGGER
 			tr := hx.Pick(r, trnames)
@@ -714,6 +798,244 @@ func genHistory(r *hx.Rand, steps int) []ddl {
 	return h
 }
 
+// ---------------------------------------------------------------------------------------------
+// objs cases (oracle only, no model): object kinds the catalog model does not have. The property
+// evaluated on the engine alone: what the catalog views say about ONE object (its rows in
+// information_schema, its line in the SHOW statement / in SHOW CREATE TABLE) is a function of that
+// object — the same in a catalog with several objects of that kind as in a catalog where it is the
+// only one. (Columns that legitimately depend on the other objects or on the clock are left out:
+// ACTION_ORDER of triggers, CREATED / LAST_ALTERED / STARTS.)
+
+type obj struct {
+	kind, name, sql string
+}
+
+var objBase = []string{
+	"CREATE TABLE par (id int NOT NULL PRIMARY KEY, x int, y int, UNIQUE KEY ux (x), UNIQUE KEY uy (y))",
+	"CREATE TABLE ch (a int, b int, c int, KEY kb (b), KEY kc (c))",
+}
+
+func genObjs(r *hx.Rand) []obj {
+	n := 2 + r.Intn(5)
+	used := map[string]bool{}
+	var out []obj
+	kinds := []string{"proc", "proc", "proc", "proc", "event", "event", "check", "check", "fk", "fk", "trig", "trig", "view"}
+	opt := func(num, den int, s string) string {
+		if r.Chance(num, den) {
+			return s
+		}
+		return ""
+	}
+	for tries := 0; len(out) < n && tries < 50; tries++ {
+		kind := hx.Pick(r, kinds)
+		if len(out) > 0 && r.Chance(1, 2) {
+			kind = out[len(out)-1].kind // several objects of one kind: that is where a listing can mix them up
+		}
+		name := kind[:1] + "_" + hx.Pick(r, []string{"a", "b", "m", "n", "y", "z"})
+		if used[name] {
+			continue
+		}
+		used[name] = true
+		var q string
+		switch kind {
+		case "proc":
+			d := randProc(r, name)
+			q = d.sql(r)
+			if r.Chance(1, 3) {
+				q = strings.Replace(q, " SELECT 1", " COMMENT '"+name+"' SELECT "+strconv.Itoa(r.Intn(9)), 1)
+			}
+		case "event":
+			q = "CREATE EVENT " + name + " ON SCHEDULE EVERY " + strconv.Itoa(1+r.Intn(9)) + " " + hx.Pick(r, []string{"DAY", "HOUR", "MINUTE", "WEEK"}) +
+				opt(1, 3, " ON COMPLETION PRESERVE") + opt(1, 3, " DISABLE") + opt(1, 3, " COMMENT '"+name+"'") + " DO SELECT " + strconv.Itoa(r.Intn(9))
+		case "check":
+			q = "ALTER TABLE ch ADD CONSTRAINT " + name + " CHECK (" + hx.Pick(r, []string{"a", "b", "c"}) + " " + hx.Pick(r, []string{">", "<", "<>"}) + " " + strconv.Itoa(r.Intn(50)) + ")" + opt(1, 3, " NOT ENFORCED")
+		case "fk":
+			acts := []string{"CASCADE", "SET NULL", "RESTRICT", "NO ACTION"}
+			q = "ALTER TABLE ch ADD CONSTRAINT " + name + " FOREIGN KEY (" + hx.Pick(r, []string{"b", "c"}) + ") REFERENCES par (" + hx.Pick(r, []string{"id", "x", "y"}) + ")"
+			if r.Chance(1, 2) {
+				q += " ON DELETE " + hx.Pick(r, acts)
+			}
+			if r.Chance(1, 2) {
+				q += " ON UPDATE " + hx.Pick(r, acts)
+			}
+		case "trig":
+			q = "CREATE TRIGGER " + name + " " + hx.Pick(r, []string{"BEFORE", "AFTER"}) + " " + hx.Pick(r, []string{"INSERT", "UPDATE", "DELETE"}) + " ON " + hx.Pick(r, []string{"ch", "par"}) +
+				" FOR EACH ROW SET @c43 = " + strconv.Itoa(r.Intn(9))
+		case "view":
+			q = "CREATE VIEW " + name + " AS SELECT " + strconv.Itoa(r.Intn(9)) + " AS " + hx.Pick(r, []string{"one", "x"})
+		}
+		out = append(out, obj{kind, name, q})
+	}
+	return out
+}
+
+// describeObj: everything the catalog views say about the object, as one canonical text; "" + error text
+// when a query fails.
+func describeObj(e *eng.Eng, ctx *sql.Context, o obj) (string, string) {
+	var parts []string
+	sel := func(label, q string) string {
+		rows, bad := query(e, ctx, q)
+		if bad != "" {
+			return label + ":" + bad
+		}
+		parts = append(parts, label+"="+rowsText(rows, true))
+		return ""
+	}
+	show := func(label, q string, nameCol int, cols ...int) string {
+		rows, bad := query(e, ctx, q)
+		if bad != "" {
+			return label + ":" + bad
+		}
+		var keep [][]string
+		for _, rw := range rows {
+			if rw[nameCol] == o.name {
+				keep = append(keep, rw)
+			}
+		}
+		parts = append(parts, label+"="+rowsText(pick(keep, cols...), true))
+		return ""
+	}
+	createLine := func(tbl string) string {
+		rows, bad := query(e, ctx, "SHOW CREATE TABLE "+tbl)
+		if bad != "" || len(rows) != 1 {
+			return "SHOWCREATE:" + bad
+		}
+		ct, err := parseCreate(rows[0][1])
+		if err != nil {
+			return "SHOWCREATE:unparsed:" + err.Error()
+		}
+		var mine []string
+		for _, ln := range ct.rest {
+			if strings.HasPrefix(ln, "CONSTRAINT `"+o.name+"`") {
+				mine = append(mine, ln)
+			}
+		}
+		parts = append(parts, "SHOWCREATE="+strings.Join(mine, "~"))
+		return ""
+	}
+	w := "'" + o.name + "'"
+	var steps []func() string
+	switch o.kind {
+	case "proc":
+		steps = []func() string{
+			func() string {
+				return sel("ROUTINES", "SELECT routine_name, routine_type, is_deterministic, sql_data_access, security_type, routine_comment, routine_definition FROM information_schema.routines WHERE routine_schema = 'd' AND routine_name = "+w)
+			},
+			func() string { return show("SHOWPROCS", "SHOW PROCEDURE STATUS", 1, 0, 1, 2, 6, 7) },
+		}
+	case "event":
+		steps = []func() string{
+			func() string {
+				return sel("EVENTS", "SELECT event_name, event_type, interval_value, interval_field, status, on_completion, event_comment, event_definition FROM information_schema.events WHERE event_schema = 'd' AND event_name = "+w)
+			},
+			func() string { return show("SHOWEVENTS", "SHOW EVENTS", 1, 0, 1, 4, 6, 7, 10) },
+		}
+	case "check":
+		steps = []func() string{
+			func() string {
+				return sel("CHECKS", "SELECT constraint_name, check_clause FROM information_schema.check_constraints WHERE constraint_schema = 'd' AND constraint_name = "+w)
+			},
+			func() string {
+				return sel("CONSTRAINTS", "SELECT constraint_name, table_name, constraint_type, enforced FROM information_schema.table_constraints WHERE table_schema = 'd' AND constraint_name = "+w)
+			},
+			func() string { return createLine("ch") },
+		}
+	case "fk":
+		steps = []func() string{
+			func() string {
+				return sel("REFERENTIAL", "SELECT constraint_name, unique_constraint_name, update_rule, delete_rule, table_name, referenced_table_name FROM information_schema.referential_constraints WHERE constraint_schema = 'd' AND constraint_name = "+w)
+			},
+			func() string {
+				return sel("KCU", "SELECT constraint_name, table_name, column_name, ordinal_position, position_in_unique_constraint, referenced_table_name, referenced_column_name FROM information_schema.key_column_usage WHERE table_schema = 'd' AND constraint_name = "+w)
+			},
+			func() string {
+				return sel("CONSTRAINTS", "SELECT constraint_name, table_name, constraint_type, enforced FROM information_schema.table_constraints WHERE table_schema = 'd' AND constraint_name = "+w)
+			},
+			func() string { return createLine("ch") },
+		}
+	case "trig":
+		steps = []func() string{
+			func() string {
+				return sel("TRIGGERS", "SELECT trigger_name, event_manipulation, event_object_table, action_timing, action_statement FROM information_schema.triggers WHERE trigger_schema = 'd' AND trigger_name = "+w)
+			},
+			func() string { return show("SHOWTRIG", "SHOW TRIGGERS", 0, 0, 1, 2, 3, 4) },
+		}
+	case "view":
+		steps = []func() string{
+			func() string {
+				return sel("VIEWS", "SELECT table_name, view_definition FROM information_schema.views WHERE table_schema = 'd' AND table_name = "+w)
+			},
+			func() string {
+				return sel("TABLES", "SELECT table_name, table_type FROM information_schema.tables WHERE table_schema = 'd' AND table_name = "+w)
+			},
+		}
+	}
+	for _, st := range steps {
+		if bad := st(); bad != "" {
+			return "", bad
+		}
+	}
+	return strings.Join(parts, ";"), ""
+}
+
+func objsCase(out *hx.Out, r *hx.Rand) {
+	objs := genObjs(r)
+	universe := func(os []obj) (*eng.Eng, *sql.Context, []bool) {
+		e := eng.New("d")
+		e.E.Analyzer.Catalog.MySQLDb.AddRootAccount()
+		ctx := e.Ctx()
+		e.MustExec(ctx, objBase...)
+		ok := make([]bool, len(os))
+		for i, o := range os {
+			ok[i] = e.Query(eng.SameSession(ctx), o.sql).Class() == "ok"
+		}
+		return e, ctx, ok
+	}
+	parts := []string{"objs"}
+	var texts []string
+	for _, o := range objs {
+		parts = append(parts, hx.List("o", o.kind, hx.HexS(o.name), hx.HexS(o.sql)))
+		texts = append(texts, o.sql)
+	}
+	full, fctx, fok := universe(objs)
+	perKind := map[string]int{}
+	for i, o := range objs {
+		if fok[i] {
+			perKind[o.kind]++
+		}
+	}
+	nontriv := false
+	for _, c := range perKind {
+		if c >= 2 {
+			nontriv = true
+		}
+	}
+	id := out.Case(hx.List(parts...), "objs", nontriv)
+	out.Stat("objs:cases")
+	for i, o := range objs {
+		if !fok[i] {
+			out.Stat("objs:" + o.kind + ":rejected")
+			continue
+		}
+		one, octx, ook := universe([]obj{o})
+		if !ook[0] {
+			out.Stat("objs:" + o.kind + ":rejected-alone")
+			continue
+		}
+		inFull, bad1 := describeObj(full, fctx, o)
+		alone, bad2 := describeObj(one, octx, o)
+		out.Stat("objs:" + o.kind + ":compared")
+		switch {
+		case bad1 != "" || bad2 != "":
+			out.OracleFail(id, "object_listing_fails", fmt.Sprintf("%s %s cannot be described: %q (with the other objects) / %q (alone)  [%s]", o.kind, o.name, bad1, bad2, strings.Join(texts, " ; ")))
+		case inFull != alone:
+			out.OracleFail(id, "object_row_depends_on_other_objects", fmt.Sprintf("%s %s is listed as %q next to the other objects and as %q when it is the only object  [%s]", o.kind, o.name, inFull, alone, strings.Join(texts, " ; ")))
+		case !strings.Contains(inFull, o.name):
+			out.OracleFail(id, "object_not_listed", fmt.Sprintf("%s %s exists but no view lists it: %q  [%s]", o.kind, o.name, inFull, strings.Join(texts, " ; ")))
+		}
+	}
+}
+
 func (st *shadowTbl) mentions(c string) bool {
 	if contains(st.pk, c) {
 		return true
@@ -724,6 +1046,20 @@ func (st *shadowTbl) mentions(c string) bool {
 		}
 	}
 	return false
+}
+
+// inColumnOrder: the key columns appear in the relative order they have in the table.
+func inColumnOrder(key, cols []string) bool {
+	pos := map[string]int{}
+	for i, c := range cols {
+		pos[c] = i
+	}
+	for i := 1; i < len(key); i++ {
+		if pos[key[i-1]] > pos[key[i]] {
+			return false
+		}
+	}
+	return true
 }
 
 func contains(xs []string, x string) bool {
@@ -749,8 +1085,102 @@ func remove(xs []string, x string) []string {
 // Observation.
 
 type obsv struct {
-	parts [][2]string
-	raw   map[string][][]string
+	parts  [][2]string
+	raw    map[string][][]string
+	create map[string]*createTbl // SHOW CREATE TABLE per base table
+}
+
+// createTbl is what SHOW CREATE TABLE says about the columns and keys of a table, in the order printed.
+type createTbl struct {
+	text string
+	cols []string
+	keys []keyDef
+	rest []string // CONSTRAINT … clauses (foreign keys, checks)
+}
+
+type keyDef struct {
+	name   string
+	unique bool
+	cols   []string
+}
+
+func (k keyDef) String() string {
+	u := "0"
+	if k.unique {
+		u = "1"
+	}
+	return k.name + "|" + u + "|" + strings.Join(k.cols, ",")
+}
+
+func keysText(ks []keyDef) string {
+	out := make([]string, len(ks))
+	for i, k := range ks {
+		out[i] = k.String()
+	}
+	return strings.Join(out, "~")
+}
+
+func (c *createTbl) obs() string { return "cols=" + strings.Join(c.cols, ",") + "/keys=" + keysText(c.keys) }
+
+// identList parses "(`b`,`a`)…" (identifiers without back quotes inside: the envelope).
+func identList(s string) ([]string, bool) {
+	i := strings.Index(s, "(")
+	j := strings.Index(s, ")")
+	if i < 0 || j < i {
+		return nil, false
+	}
+	var out []string
+	for _, x := range strings.Split(s[i+1:j], ",") {
+		x = strings.TrimSpace(x)
+		if len(x) < 2 || x[0] != '`' || x[len(x)-1] != '`' {
+			return nil, false
+		}
+		out = append(out, x[1:len(x)-1])
+	}
+	return out, true
+}
+
+// parseCreate reads the column names and the key clauses off a SHOW CREATE TABLE text. An
+// unrecognised line is an error (the harness must not silently skip what it does not understand).
+func parseCreate(text string) (*createTbl, error) {
+	c := &createTbl{text: text}
+	lines := strings.Split(text, "\n")
+	if len(lines) < 2 || !strings.HasPrefix(lines[0], "CREATE TABLE `") {
+		return nil, fmt.Errorf("not a CREATE TABLE statement: %q", text)
+	}
+	for _, ln := range lines[1:] {
+		ln = strings.TrimSuffix(strings.TrimSpace(ln), ",")
+		switch {
+		case strings.HasPrefix(ln, ")"):
+			return c, nil
+		case strings.HasPrefix(ln, "`"):
+			j := strings.Index(ln[1:], "`")
+			if j < 0 {
+				return nil, fmt.Errorf("column line %q", ln)
+			}
+			c.cols = append(c.cols, ln[1:1+j])
+		case strings.HasPrefix(ln, "PRIMARY KEY "):
+			cols, ok := identList(ln)
+			if !ok {
+				return nil, fmt.Errorf("key line %q", ln)
+			}
+			c.keys = append(c.keys, keyDef{"PRIMARY", true, cols})
+		case strings.HasPrefix(ln, "UNIQUE KEY `"), strings.HasPrefix(ln, "KEY `"):
+			u := strings.HasPrefix(ln, "UNIQUE ")
+			rest := ln[strings.Index(ln, "`")+1:]
+			j := strings.Index(rest, "`")
+			cols, ok := identList(rest[j+1:])
+			if j < 0 || !ok {
+				return nil, fmt.Errorf("key line %q", ln)
+			}
+			c.keys = append(c.keys, keyDef{rest[:j], u, cols})
+		case strings.HasPrefix(ln, "CONSTRAINT `"):
+			c.rest = append(c.rest, ln)
+		default:
+			return nil, fmt.Errorf("unrecognised line %q", ln)
+		}
+	}
+	return nil, fmt.Errorf("no closing parenthesis: %q", text)
 }
 
 func rowsText(rows [][]string, sorted bool) string {
@@ -786,7 +1216,7 @@ func pick(rows [][]string, idxs ...int) [][]string {
 }
 
 func observe(e *eng.Eng, ctx *sql.Context) (*obsv, string) {
-	o := &obsv{raw: map[string][][]string{}}
+	o := &obsv{raw: map[string][][]string{}, create: map[string]*createTbl{}}
 	put := func(key string, rows [][]string, sorted bool) {
 		o.parts = append(o.parts, [2]string{key, rowsText(rows, sorted)})
 		o.raw[key] = rows
@@ -802,6 +1232,8 @@ func observe(e *eng.Eng, ctx *sql.Context) (*obsv, string) {
 		{"SHOWTABLES", "SHOW TABLES"},
 		{"SHOWFULL", "SHOW FULL TABLES"},
 		{"SHOWTRIG", "SHOW TRIGGERS"},
+		{"ROUTINES", "SELECT routine_name, is_deterministic, sql_data_access, security_type FROM information_schema.routines WHERE routine_schema = 'd'"},
+		{"SHOWPROCS", "SHOW PROCEDURE STATUS"},
 	}
 	base := map[string]bool{}
 	for _, x := range qs {
@@ -826,6 +1258,14 @@ func observe(e *eng.Eng, ctx *sql.Context) (*obsv, string) {
 			rows = keep
 		case "SHOWTRIG":
 			rows = pick(rows, 0, 1, 2, 4)
+		case "SHOWPROCS": // (Name, Security_type) of the procedures of d
+			var keep [][]string
+			for _, r := range rows {
+				if r[0] == "d" {
+					keep = append(keep, []string{r[1], r[6]})
+				}
+			}
+			rows = keep
 		}
 		put(x.key, rows, true)
 	}
@@ -845,16 +1285,100 @@ func observe(e *eng.Eng, ctx *sql.Context) (*obsv, string) {
 			return nil, "SHOWIDX:" + bad
 		}
 		put("SHOWIDX:"+n, pick(rows, 0, 1, 2, 3, 4, 9), false)
+		rows, bad = query(e, ctx, "SHOW CREATE TABLE "+n)
+		if bad != "" || len(rows) != 1 || len(rows[0]) < 2 {
+			return nil, "SHOWCREATE:" + bad + fmt.Sprintf("(%d rows)", len(rows))
+		}
+		ct, err := parseCreate(rows[0][1])
+		if err != nil {
+			return nil, "SHOWCREATE:unparsed:" + err.Error()
+		}
+		o.create[n] = ct
+		o.parts = append(o.parts, [2]string{"SHOWCREATE:" + n, ct.obs()})
 	}
 	return o, ""
 }
+
+// keysBy groups rows of a key view (already restricted to one table) by key name and orders the
+// columns of each key by its sequence number: name → columns in key order.
+func keysBy(rows [][]string, nameCol, seqCol, colCol int) map[string][]string {
+	type ent struct {
+		seq int
+		col string
+	}
+	tmp := map[string][]ent{}
+	for _, rw := range rows {
+		k, _ := strconv.Atoi(rw[seqCol])
+		tmp[rw[nameCol]] = append(tmp[rw[nameCol]], ent{k, rw[colCol]})
+	}
+	out := map[string][]string{}
+	for n, es := range tmp {
+		sort.SliceStable(es, func(i, j int) bool { return es[i].seq < es[j].seq })
+		for i, x := range es {
+			if x.seq != i+1 {
+				out[n] = append(out[n], fmt.Sprintf("<seq %d at place %d>", x.seq, i+1))
+			}
+			out[n] = append(out[n], x.col)
+		}
+	}
+	return out
+}
+
+func keyMapText(m map[string][]string) string {
+	var ns []string
+	for n := range m {
+		ns = append(ns, n)
+	}
+	sort.Strings(ns)
+	for i, n := range ns {
+		ns[i] = n + "(" + strings.Join(m[n], ",") + ")"
+	}
+	return strings.Join(ns, " ")
+}
+
+// liveKeys walks the table object itself: GetIndexes (expressions "t.col") and, for the primary key,
+// the ordinals of its primary-key schema.
+func liveKeys(e *eng.Eng, ctx *sql.Context, name string) (all map[string][]string, pkByOrd []string, err error) {
+	t, ok, err := e.DBs[0].GetTableInsensitive(ctx, name)
+	if err != nil || !ok {
+		return nil, nil, fmt.Errorf("table %s not found in the database: %v", name, err)
+	}
+	all = map[string][]string{}
+	if ia, ok := t.(sql.IndexAddressable); ok {
+		is, err := ia.GetIndexes(ctx)
+		if err != nil {
+			return nil, nil, err
+		}
+		for _, i := range is {
+			var cols []string
+			for _, ex := range i.Expressions() {
+				cols = append(cols, ex[strings.LastIndex(ex, ".")+1:])
+			}
+			all[i.ID()] = cols
+		}
+	}
+	if pt, ok := t.(sql.PrimaryKeyTable); ok {
+		ps := pt.PrimaryKeySchema(ctx)
+		for _, k := range ps.PkOrdinals {
+			if k < 0 || k >= len(ps.Schema) {
+				return nil, nil, fmt.Errorf("primary-key ordinal %d outside the schema of %s (%d columns)", k, name, len(ps.Schema))
+			}
+			pkByOrd = append(pkByOrd, ps.Schema[k].Name)
+		}
+	}
+	return all, pkByOrd, nil
+}
+
 
 func run(a hx.RunArgs) error {
 	out := hx.NewOut(a.OutDir)
 	defer out.Close()
 	out.Rule = "one case = one DDL history (1-16 statements: CREATE/DROP TABLE with keys, ADD [FIRST|AFTER] / DROP / RENAME COLUMN, CREATE/DROP INDEX, ADD/DROP PRIMARY KEY, " +
-		"CREATE/DROP VIEW, CREATE/DROP TRIGGER; ~10% deliberately invalid) over an empty database, observed at its end through 7 information_schema tables and 5 SHOW statements; " +
-		"non-trivial = at least two tables or one table with a secondary index exist at the end and at least one statement was rejected or a view/trigger exists"
+		"CREATE/DROP VIEW, CREATE/DROP TRIGGER, CREATE/DROP PROCEDURE with characteristics; ~10% deliberately invalid; streams: mixed, key-centred (composite keys out of column order, re-added keys), " +
+		"routine-centred) over an empty database, observed at its end through 8 information_schema tables and 7 SHOW statements (SHOW CREATE TABLE: column order and key clauses); " +
+		"objs cases (oracle only): 2-6 procedures / events / checks / foreign keys / triggers / views, each listed in the full catalog as when it is alone; " +
+		"non-trivial = at least two tables or one table with a secondary index exist at the end and at least one statement was rejected or a view/trigger exists, " +
+		"or two procedures exist, or a key is declared out of column order"
 	r := hx.NewRand(a.Seed).Fork()
 
 	emit := func(kind string, h []ddl, acct bool, rr *hx.Rand) {
@@ -901,6 +1425,16 @@ func run(a hx.RunArgs) error {
 			}
 			obs += strings.Join(kv, ";")
 			nontriv = (len(o.raw["TABLES"]) >= 2 || len(o.raw["STATISTICS"]) >= 2) && (strings.Contains(flags, "e") || len(o.raw["SHOWTRIG"]) > 0 || len(o.raw["VIEWS"]) > 0)
+			if len(o.raw["ROUTINES"]) >= 2 {
+				nontriv = true
+			}
+			for _, ct := range o.create {
+				for _, k := range ct.keys {
+					if len(k.cols) > 1 && !inColumnOrder(k.cols, ct.cols) {
+						nontriv = true
+					}
+				}
+			}
 		}
 		id := out.Case(hx.List(parts...), obs, nontriv)
 		out.Stat("history:" + kind + ":" + mode)
@@ -1008,6 +1542,128 @@ func run(a hx.RunArgs) error {
 			if rowsText(fromStats, true) != rowsText(o.raw["SHOWIDX:"+n], true) {
 				fail("-", "SHOW INDEX FROM %s %q differs from information_schema.statistics %q", n, rowsText(o.raw["SHOWIDX:"+n], true), rowsText(fromStats, true))
 			}
+			// (3) key order: every key has the same column list, in the same order, wherever it is shown.
+			// None of the listed defects touches the order of key columns, so these failures carry their own
+			// tag (they must not inherit the region of a COLUMN_KEY / default-quoting case).
+			ct := o.create[n]
+			fromCreate := map[string][]string{}
+			for _, k := range ct.keys {
+				fromCreate[k.name] = k.cols
+			}
+			var kcu [][]string
+			for _, rw := range o.raw["KCU"] {
+				if rw[1] == n {
+					kcu = append(kcu, rw)
+				}
+			}
+			byStats := keysBy(fromStats, 2, 3, 4)
+			byShowIdx := keysBy(o.raw["SHOWIDX:"+n], 2, 3, 4)
+			byKcu := keysBy(kcu, 0, 3, 2)
+			live, pkByOrd, err := liveKeys(e, ctx, n)
+			if err != nil {
+				fail("key_column_order_disagrees", "%v", err)
+				continue
+			}
+			want := keyMapText(live)
+			if got := keyMapText(fromCreate); got != want {
+				fail("key_column_order_disagrees", "SHOW CREATE TABLE %s has the keys %s, the table's own indexes are %s", n, got, want)
+			}
+			if got := keyMapText(byStats); got != want {
+				fail("key_column_order_disagrees", "information_schema.statistics has the keys %s for %s, the table's own indexes are %s", got, n, want)
+			}
+			if got := keyMapText(byShowIdx); got != want {
+				fail("key_column_order_disagrees", "SHOW INDEX FROM %s has the keys %s, the table's own indexes are %s", n, got, want)
+			}
+			uniqLive := map[string][]string{}
+			for _, k := range ct.keys {
+				if k.unique {
+					uniqLive[k.name] = live[k.name]
+				}
+			}
+			if got, w := keyMapText(byKcu), keyMapText(uniqLive); got != w {
+				fail("key_column_order_disagrees", "information_schema.key_column_usage has the keys %s for %s, the table's own unique indexes are %s", got, n, w)
+			}
+			if strings.Join(pkByOrd, ",") != strings.Join(live["PRIMARY"], ",") {
+				fail("key_column_order_disagrees", "the primary-key ordinals of %s read back to (%s), its PRIMARY index is (%s)", n, strings.Join(pkByOrd, ","), strings.Join(live["PRIMARY"], ","))
+			}
+			colNames := make([]string, len(fromCols))
+			for i, rw := range fromCols {
+				colNames[i] = rw[1]
+			}
+			if strings.Join(ct.cols, ",") != strings.Join(colNames, ",") {
+				fail("key_column_order_disagrees", "SHOW CREATE TABLE %s lists the columns %v, information_schema.columns %v", n, ct.cols, colNames)
+			}
+			if len(live["PRIMARY"]) > 1 || len(ct.keys) > 1 {
+				out.Stat("tables:composite-or-several-keys")
+			}
+			for _, k := range ct.keys {
+				if len(k.cols) > 1 && !inColumnOrder(k.cols, ct.cols) {
+					out.Stat("keys:declared-out-of-column-order")
+					if k.name == "PRIMARY" {
+						out.Stat("keys:primary-out-of-column-order")
+					}
+				}
+			}
+		}
+		// (4) round trip: the printed CREATE TABLE statements, executed on an empty database, give tables
+		// with the same keys (same views, same SHOW CREATE TABLE)
+		if len(listed) > 0 {
+			e2 := eng.New("d")
+			if acct {
+				e2.E.Analyzer.Catalog.MySQLDb.AddRootAccount()
+			}
+			ctx2 := e2.Ctx()
+			ok := true
+			for _, n := range listed {
+				if res := e2.Query(eng.SameSession(ctx2), o.create[n].text); res.Class() != "ok" {
+					fail("show_create_round_trip", "the statement SHOW CREATE TABLE %s printed is rejected (%s %v %s): %s", n, res.Class(), res.Err, res.Panic, hx.OneLine(o.create[n].text))
+					ok = false
+				}
+			}
+			if ok {
+				for _, x := range []struct{ key, q string }{
+					{"STATISTICS", "SELECT table_name, non_unique, index_name, seq_in_index, column_name, nullable FROM information_schema.statistics WHERE table_schema = 'd'"},
+					{"KCU", "SELECT constraint_name, table_name, column_name, ordinal_position FROM information_schema.key_column_usage WHERE table_schema = 'd'"},
+					{"CONSTRAINTS", "SELECT constraint_name, table_name, constraint_type FROM information_schema.table_constraints WHERE table_schema = 'd'"},
+				} {
+					rows, bad := query(e2, ctx2, x.q)
+					if bad != "" || rowsText(rows, true) != rowsText(o.raw[x.key], true) {
+						fail("show_create_round_trip", "after replaying the SHOW CREATE TABLE statements %s is %q (%s), it was %q", x.key, rowsText(rows, true), bad, rowsText(o.raw[x.key], true))
+					}
+				}
+				for _, n := range listed {
+					rows, bad := query(e2, ctx2, "SHOW CREATE TABLE "+n)
+					if bad != "" || len(rows) != 1 || rows[0][1] != o.create[n].text {
+						fail("show_create_round_trip", "SHOW CREATE TABLE %s is not a fixed point: %q replayed gives %q %s", n, hx.OneLine(o.create[n].text), hx.OneLine(fmt.Sprint(rows)), bad)
+					}
+				}
+			}
+			out.Stat("roundtrip:histories")
+		}
+		// (5) routines: the listed procedures are the stored ones, SHOW PROCEDURE STATUS = ROUTINES
+		var stored, routines []string
+		if sps, err := e.DBs[0].GetStoredProcedures(ctx); err == nil {
+			for _, sp := range sps {
+				stored = append(stored, sp.Name)
+			}
+		}
+		for _, rw := range o.raw["ROUTINES"] {
+			routines = append(routines, rw[0])
+		}
+		sort.Strings(stored)
+		sort.Strings(routines)
+		if strings.Join(stored, ",") != strings.Join(routines, ",") {
+			tag := "routines_listing_disagrees"
+			if !acct && len(routines) == 0 {
+				tag = "no_privilege_set_routines_empty"
+			}
+			fail(tag, "information_schema.routines lists %v, the database stores the procedures %v", routines, stored)
+		}
+		if got, w := rowsText(o.raw["SHOWPROCS"], true), rowsText(pick(o.raw["ROUTINES"], 0, 3), true); got != w {
+			fail("routines_listing_disagrees", "SHOW PROCEDURE STATUS (name, security type) %q differs from information_schema.routines %q", got, w)
+		}
+		if len(stored) >= 2 {
+			out.Stat("histories:two-or-more-procedures")
 		}
 	}
 
@@ -1024,6 +1680,17 @@ func run(a hx.RunArgs) error {
 		{{kind: "ct", t: "t1", cols: []col{{name: "a", ty: "int"}, {name: "b", ty: "int", nullable: true}}}, {kind: "ac", t: "t1", c: col{name: "c", ty: "bigint", nullable: true}, pos: "first"},
 			{kind: "ci", t: "t1", i: idx{name: "u1", unique: true, cols: []string{"a"}}}, {kind: "rc", t: "t1", n: "a", n2: "k1"}, {kind: "dc", t: "t1", n: "b"}},
 	}
+	corpus = append(corpus,
+		// composite primary key declared out of column order, dropped and re-added in another order,
+		// a column added in front of the key columns
+		[]ddl{{kind: "ct", t: "t1", cols: []col{{name: "a", ty: "int"}, {name: "b", ty: "int"}, {name: "c", ty: "int", nullable: true}}, pk: []string{"b", "a"},
+			idxs: []idx{{name: "u1", unique: true, cols: []string{"c", "a"}}, {name: "k2", cols: []string{"c", "b", "a"}}}},
+			{kind: "dpk", t: "t1"}, {kind: "apk", t: "t1", pk: []string{"c", "a"}}, {kind: "ac", t: "t1", c: col{name: "z", ty: "int", nullable: true}, pos: "first"}},
+		// procedures: the one that sorts first states every characteristic, the later ones none / some
+		[]ddl{{kind: "cp", n: "audit", chars: []string{"det", "reads"}, invoker: true}, {kind: "cp", n: "p1"}, {kind: "cp", n: "p2", chars: []string{"nosql"}},
+			{kind: "cp", n: "p1"}, {kind: "dp", n: "audit"}, {kind: "cp", n: "m1", chars: []string{"notdet", "det", "modifies", "contains"}}},
+		[]ddl{{kind: "cp", n: "m1", chars: []string{"det", "modifies"}, invoker: true}, {kind: "cp", n: "zz"}, {kind: "ct", t: "zz", cols: []col{{name: "a", ty: "int", nullable: true}}}},
+	)
 	for _, h := range corpus {
 		emit("corpus", h, true, r.Fork())
 		emit("corpus", h, false, r.Fork())
@@ -1040,14 +1707,26 @@ func run(a hx.RunArgs) error {
 			out.OracleFail(id, "case_variant_table_names", fmt.Sprintf("tables T3 and t3 (one column each): information_schema.columns has %d rows: %s", len(rows), rowsText(rows, true)))
 		}
 	}
-	n := 1400
+	n, nKeys, nProcs, nObjs := 1000, 150, 150, 120
 	if a.Thorough {
-		n = 12000
+		n, nKeys, nProcs, nObjs = 9000, 1500, 1500, 1200
 	}
+	// the streams are interleaved so that the smallest failing case of any class is found early
 	for i := 0; i < n; i++ {
 		rr := r.Fork()
-		h := genHistory(rr, 1+rr.Intn(16))
+		h := genHistory(rr, 1+rr.Intn(16), "mixed")
 		emit("random", h, !rr.Chance(1, 8), rr.Fork())
+		if i*nKeys/n != (i+1)*nKeys/n {
+			rk := r.Fork()
+			emit("keys", genHistory(rk, 1+rk.Intn(8), "keys"), !rk.Chance(1, 10), rk.Fork())
+		}
+		if i*nProcs/n != (i+1)*nProcs/n {
+			rp := r.Fork()
+			emit("procs", genHistory(rp, 2+rp.Intn(7), "procs"), !rp.Chance(1, 10), rp.Fork())
+		}
+		if i*nObjs/n != (i+1)*nObjs/n {
+			objsCase(out, r.Fork())
+		}
 	}
 	return nil
 }
